@@ -52,3 +52,15 @@ Qed.
 Print Assumptions repo_accounted.
 Print Assumptions repo_last_upgrade_loads.
 Print Assumptions repo_disk_is_mounted.
+
+(** which upgrade heights THIS binary can be started at (upgrade-info.json naming that descriptor, the disk left by the
+    previous ones): exactly those from which every store it mounts is on disk or introduced — here v2.2.0 and v2.2.1.
+    The harness starts the real binary at each height in a child process and the answers must agree (UPROBE). *)
+Definition loadable_at (k : nat) : bool :=
+  match nth_error GenUpgrade.upgrades k with
+  | Some d => load_ok GenUpgrade.mounted_stores (upgrade_path baseline (firstn k GenUpgrade.upgrades)) (Some d)
+  | None => false
+  end.
+Theorem repo_loadable_heights : map loadable_at (seq 0 (length GenUpgrade.upgrades)) = [false; false; false; true; true].
+Proof. vm_compute. reflexivity. Qed.
+Print Assumptions repo_loadable_heights.
